@@ -47,12 +47,13 @@ Theorem C18_bins_check_sound : forall image nbins r v,
 Proof. exact bins_check_sound. Qed.
 Print Assumptions C18_bins_check_sound.
 
-(* median_of_labels (after fix F5): every requested label's median, NaN (None) for a label
-   without pixels wherever it stands in the request list *)
+(* median_of_labels (after fix F5 and the repeated-request repair): every entry of the request list
+   - repeated or not - gets its label's median, NaN (None) for a label without pixels wherever it
+   stands in the list.  No hypothesis on the request list. *)
 Theorem C18_median_of_labels_spec : forall (image : list Z) (labels indices : list nat),
-  length image = length labels -> NoDup indices ->
+  length image = length labels ->
   median_of_labels image labels indices = median_ref image labels indices.
-Proof. exact median_of_labels_correct. Qed.
+Proof. exact median_of_labels_correct_all. Qed.
 Print Assumptions C18_median_of_labels_spec.
 
 (* mode: the returned list is exactly the set of most frequent values (strictly increasing) *)
